@@ -474,7 +474,10 @@ def case_legacy(res, mode, g, tier):
     unknown += ["(0,0)", "(0"] if mode == "AOTP_CTT_indexed" else ["(", "0"]
     for bad in unknown:
         if bad in first:
-            raise AssertionError(f"harness: {bad!r} is in the vocabulary of {site}")
+            # a token that must be foreign to this vocabulary (an out-of-grid coordinate, a made-up word) is listed in it
+            res.fail(f"C14|MazeTokenizer.token_arr|{mode}|foreign_token_listed|{gcls}", f"{site}.token_arr lists {bad!r} (position {first[bad]}), which is not a token of a "
+                     f"{g}x{g} vocabulary", rd)
+            continue
         for seq in placements(context, bad):
             expect_token_error(res, "MazeTokenizer.encode", site + ".encode", "unknown_token|list", tok.encode, seq, repr(seq), rd)
             res.nontrivial(("legacy_unk_tok", mode, g, tuple(seq)))
@@ -549,6 +552,35 @@ def task(t, res):
             case_legacy(res, t["mode"], g, t["tier"])
     elif part == "legacy_prefix":
         case_legacy_prefix(res)
+    elif part == "legacy_order":
+        # the vocabularies of one mode built in another order than ascending (fresh interpreter): what was built for one size must
+        # not shape the vocabulary of another
+        for g in t["gs"]:
+            case_legacy(res, t["mode"], g, t["tier"])
+        case_legacy_prefix(res)
+    elif part == "access_paths":
+        # every way of reading a special token / vocabulary entry (attribute, item by name, lower-case and pre-rename spellings,
+        # iteration, len, membership) before the layout and the legacy vocabularies are built: reading must not change anything
+        import warnings
+
+        from maze_dataset.constants import SPECIAL_TOKENS, VOCAB
+
+        with warnings.catch_warnings():
+            warnings.simplefilter("ignore")
+            for obj in (SPECIAL_TOKENS, VOCAB):
+                names = list(obj.keys())
+                for k in names[: (len(names) if obj is SPECIAL_TOKENS else 40)] + names[-5:]:
+                    for spelled in (k, k.lower(), k.replace("ADJLIST", "ADJ_LIST"), k.replace("ADJLIST", "ADJ_LIST").lower()):
+                        for read in (lambda: obj[spelled], lambda: getattr(obj, spelled), lambda: spelled in obj, lambda: obj.get(spelled) if hasattr(obj, "get") else None):
+                            try:
+                                read()
+                            except Exception:  # noqa: BLE001 - an unknown spelling may be refused; it is only history
+                                pass
+                len(obj), list(obj.values()), list(obj.items()) if hasattr(obj, "items") else None
+        case_layout(res)
+        for mode in ("AOTP_UT_rasterized", "AOTP_UT_uniform", "AOTP_CTT_indexed"):
+            for g in (1, 3, 12):
+                case_legacy(res, mode, g, t["tier"])
     else:
         raise ValueError(part)
     if part != "layout":
@@ -575,6 +607,11 @@ def run(ctx):
         for r in range(5):
             tasks.append(dict(part="legacy", tier=ctx.tier, mode=mode, gs=[g for g in range(1, 51) if g % 5 == r]))
     ctx.pmap("mzcheck.checks.c14", "task", tasks)
+    desc = list(range(50, 0, -7)) + [11, 10, 9, 2, 1]
+    zig = [x for a, b in zip(range(50, 25, -6), range(1, 26, 6)) for x in (a, b)]
+    fresh_tasks = [dict(part="legacy_order", tier=ctx.tier, mode=mode, gs=gs) for mode in ("AOTP_UT_rasterized", "AOTP_UT_uniform", "AOTP_CTT_indexed") for gs in (desc, zig)]
+    fresh_tasks.append(dict(part="access_paths", tier=ctx.tier))
+    ctx.pmap("mzcheck.checks.c14", "task", fresh_tasks, fresh=True)
     ctx.coverage.update(
         vocabulary_positions=4096, modular_single_ids=4096, modular_pair_alphabet=pa, modular_pairs=pa * pa,
         modular_triple_alphabet=ta, modular_triples=ta ** 3, modular_long_sequences=["empty", "0..4095", "4095..0"],
